@@ -194,6 +194,7 @@ def finish(chk: Check, t0: float, seed: int, audit: Optional[Dict[str, Any]] = N
         "new_violations": [v.as_dict() for v in new],
         "undecided": [v.as_dict() for v in chk.undecided()],
         "repo_root": str(chk.repo.root),
+        "normal_form": getattr(chk.repo, "normal_form", {}),
         "exhaustive": True,
     }
     cov.update(chk.extra)
@@ -209,6 +210,9 @@ def finish(chk: Check, t0: float, seed: int, audit: Optional[Dict[str, Any]] = N
             "no monkey-patching / reflection on model objects beyond what the engine resolves",
             "third-party libraries (intervaltree, sortedcontainers, networkx, protobuf) behave as documented",
             "clients use the public API only",
+            "normal form (E0): bound methods of live objects are not rebound; attributes assigned only in "
+            "constructors do not change afterwards; range/slice bounds and Interval fields are immutable; "
+            "extend(generator) appends element by element",
         ],
         "wall_s": round(time.time() - t0, 3),
         "violations": len(new),
